@@ -267,11 +267,12 @@ impl<'a> SemanticBuilder<'a> {
         let end_col = end_col as u32;
 
         if !self.multi_line_support && start_line != end_line {
+            // one token per line, each ending where its line's text ends
             let mut multi_line_data = vec![];
             multi_line_data.push(BasicSemanticTokenData {
                 line: start_line,
                 col: start_col,
-                length: 9999,
+                length: self.line_length(start_line).saturating_sub(start_col),
                 typ,
                 modifiers,
             });
@@ -280,7 +281,7 @@ impl<'a> SemanticBuilder<'a> {
                 multi_line_data.push(BasicSemanticTokenData {
                     line: i,
                     col: 0,
-                    length: 9999,
+                    length: self.line_length(i),
                     typ,
                     modifiers,
                 });
@@ -297,15 +298,33 @@ impl<'a> SemanticBuilder<'a> {
             self.data
                 .push(SemanticTokenData::MultiLine(multi_line_data));
         } else {
+            let length = if start_line != end_line {
+                // multi-line token: its length is the length of its text
+                self.document.get_text_slice(range).encode_utf16().count() as u32
+            } else {
+                end_col.saturating_sub(start_col)
+            };
             self.data
                 .push(SemanticTokenData::Basic(BasicSemanticTokenData {
                     line: start_line,
                     col: start_col,
-                    length: end_col.saturating_sub(start_col),
+                    length,
                     typ,
                     modifiers,
                 }));
         }
+    }
+
+    /// length of a line's text (without its line terminator) in UTF-16 code units
+    fn line_length(&self, line: u32) -> u32 {
+        let Some(range) = self.document.get_line_range(line as usize) else {
+            return 0;
+        };
+        self.document
+            .get_text_slice(range)
+            .trim_end_matches(['\r', '\n'])
+            .encode_utf16()
+            .count() as u32
     }
 
     pub fn push(&mut self, token: &LuaSyntaxToken, ty: SemanticTokenTypeKind) {
@@ -384,22 +403,29 @@ impl<'a> SemanticBuilder<'a> {
                 .collect(),
         );
 
-        data.sort_unstable_by(|a, b| {
-            let line1 = a.line;
-            let line2 = b.line;
-            if line1 == line2 {
-                let character1 = a.col;
-                let character2 = b.col;
-                return character1.cmp(&character2);
+        // Tokens must be ordered and must not overlap: empty entries are dropped, entries are
+        // sorted by position (stable: of two entries with the same start the first pushed
+        // wins) and an entry is clipped where the next one on its line starts.
+        data.retain(|token_data| token_data.length > 0);
+        data.sort_by_key(|token_data| (token_data.line, token_data.col));
+        let mut tokens: Vec<BasicSemanticTokenData> = Vec::with_capacity(data.len());
+        for token_data in data {
+            if let Some(prev) = tokens.last_mut()
+                && prev.line == token_data.line
+            {
+                if prev.col == token_data.col {
+                    continue;
+                }
+                prev.length = prev.length.min(token_data.col - prev.col);
             }
-            line1.cmp(&line2)
-        });
+            tokens.push(token_data);
+        }
 
-        let mut result = Vec::with_capacity(data.len());
+        let mut result = Vec::with_capacity(tokens.len());
         let mut prev_line = 0;
         let mut prev_col = 0;
 
-        for token_data in data {
+        for token_data in tokens {
             let line_diff = token_data.line - prev_line;
             if line_diff != 0 {
                 prev_col = 0;
